@@ -413,6 +413,39 @@ func successEscapes(fn *ssa.Function, must instrPred, extra func(*ssa.Return) bo
 	return nil
 }
 
+// onlyFailsFrom: every path from the beginning of block b reaches a return whose error is provably non-nil (resolved along
+// the path: `err = …; break; … if err != nil { return err }` counts) without executing an instruction satisfying effect.
+// Returns nil when that holds, else an offending instruction (the effect, the success return, or b's first instruction
+// when the enumeration was cut short).
+func onlyFailsFrom(b *ssa.BasicBlock, effect instrPred) ssa.Instruction {
+	paths, trunc := enumPaths(b, walkCfg{MaxVisits: 2, MaxPaths: 5000})
+	if trunc || len(paths) == 0 {
+		return b.Instrs[0]
+	}
+	for _, p := range paths {
+		if !p.Feasible() {
+			continue
+		}
+		if effect != nil {
+			for _, in := range p.Instrs() {
+				if effect(in) {
+					return in
+				}
+			}
+		}
+		switch p.End {
+		case EndReturn:
+			if pathErrClass(p) != ErrNonNil {
+				return p.Ret
+			}
+		case EndPanic:
+		default:
+			return b.Instrs[0]
+		}
+	}
+	return nil
+}
+
 // alwaysDoes: every path from g's entry to a return passes an instruction satisfying must — directly, or through a
 // static call to a same-package function that always does (bounded depth). A call to such a g is as good as the
 // instruction itself for must-pass-through rules.
